@@ -221,8 +221,19 @@ def rule_separator_pairing(ctx: Ctx, rule: str) -> None:
             ctx.ob(rule, key, ok, site, 'outside path mode, or directly behind _restrict_extended_slash()',
                    'non-path branch' if nonpath else ('restricted' if restricted else f'{norm_src(p)}; guards {sorted(g)}'),
                    witness="globmatch('a/b', '@(a/b)', EXTGLOB) must be False")
-    ctx.floor(rule, 'top-level separator emissions', n_top, 4)
-    ctx.floor(rule, 'bare separator emissions', n_bare, 5)
+    ctx.floor(rule, 'top-level separator emissions', n_top, 2)
+    ctx.floor(rule, 'bare separator emissions', n_bare, 3)
+    # named instances: the places where a written separator must become a run of separators
+    for qn, conds in (('WcParse.root', [("c == '/'", 'self.pathname')]),
+                      ('WcParse._references', [("c == '/'", 'self.pathname'), ("c == '\\\\'", 'self.bslash_abort')])):
+        fi = repo.func(WP, qn)
+        q = fq(fi)
+        tops, _b = _sep_emissions(fi)
+        for ctest, mode in conds:
+            have = [t for t in tops if (ctest, 'T') in q.guards(t) and (mode, 'T') in q.guards(t)]
+            ctx.ob(rule, f'{WP}:{qn}/sep-run-present[{ctest}]', bool(have), repo.loc(WP, fi.node),
+                   f'under {ctest} and {mode}: emits `self.sep + _ONE_OR_MORE`', f'{len(have)} emission(s)',
+                   witness="globmatch('a//b', 'a/b') must be True: a written separator stands for a run of separators")
     # the escaped-separator arm of root: when _references reported a directory start, do the same bookkeeping
     fi = repo.func(WP, 'WcParse.root')
     q = fq(fi)
